@@ -207,7 +207,8 @@ def pow_rows(prog, sh=None, thorough=False):
             if got != (a * b) % mod:
                 wrong.append("monty_multiply(%#x, %#x, %#x) = %r (code %r)" % (a, b, mod, got, rc))
     # refusals
-    for (mod, ln, what) in ((1 << 64, 9, "an even modulus"), (10, 1, "an even modulus"), (7, 0, "a zero length")):
+    for (mod, ln, what) in ((1 << 64, 9, "an even modulus"), (10, 1, "an even modulus"), (7, 0, "a zero length"),
+                            (1, 1, "the modulus 1"), (1, 8, "the modulus 1 with leading zeros")):
         if not sh.take():
             continue
         m = Machine(prog, SRC, budget=30000000)
